@@ -95,9 +95,9 @@ def mk_curve(spec):
     if k == "discrete":
         return DiscreteCurve(spec[1])
     if k == "linear":
-        return LinearInterpolatedCurve(spec[1])
+        return LinearInterpolatedCurve(spec[1], equalize=spec[2]) if len(spec) > 2 else LinearInterpolatedCurve(spec[1])
     if k == "splinei":
-        return SplineInterpolatedCurve(spec[1])
+        return SplineInterpolatedCurve(spec[1], equalize=spec[2]) if len(spec) > 2 else SplineInterpolatedCurve(spec[1])
     if k == "linecurve":
         return LineCurve(spec[1], spec[2])
     if k == "circle":
@@ -360,7 +360,10 @@ def gen_edge_between(rng, p1, p2, kind=None, perp_angle=False):
         ck = kind.split(":")[1]
         full = [list(map(float, a - d * 0.25))] + [list(map(float, a))] + pts + [list(map(float, b))] + [list(map(float, b + d * 0.25))]
         if ck in ("discrete", "linear", "splinei"):
-            return ["curve", [ck, full], rng.randint(3, 6)]
+            # non-default construction options must survive copies and transformations, too (unevenly spaced points:
+            # with equalize=False the parameter is the point index, not the chord length)
+            opt = [False] if (ck != "discrete" and rng.random() < 0.4) else []
+            return ["curve", [ck, full] + opt, rng.randint(3, 6)]
         if ck == "linecurve":
             return ["curve", ["linecurve", list(map(float, a - d * 0.5)), list(map(float, b + d * 0.5))], rng.randint(3, 6)]
         if ck == "circle":
